@@ -1,0 +1,13 @@
+//go:build verif
+
+package parser
+
+// VerifHook, when set, is called at the synchronisation points of the
+// lexer and the parser (verification hook; build tag verif).
+var VerifHook func(id int)
+
+func verifPoint(id int) {
+	if h := VerifHook; h != nil {
+		h(id)
+	}
+}
